@@ -74,14 +74,15 @@ CHECKS = {}
 def scalar(prop, rule, expl, dl_quick=100, dl_thorough=1500, configs=None):
     CHECKS[prop] = dict(
         name="scalar", harness=["checks/scalar.c"], libs=LIBS_SCALAR,
-        configs=configs or {"quick": ["pinned", "debug", "asan", "native"], "thorough": ["pinned", "debug", "asan", "native", "v2", "bmi"]},
-        shards={"pinned": 16, "debug": 8, "asan": 8, "native": 8, "v2": 8, "bmi": 8},
+        configs=configs or {"quick": ["pinned", "debug", "asan", "native"], "thorough": ["pinned", "debug", "asan", "native", "v2", "bmi", "o3"]},
+        shards={"pinned": 16, "debug": 8, "asan": 8, "native": 8, "v2": 8, "bmi": 8, "o3": 8},
         deadline={"quick": dl_quick, "thorough": dl_thorough},
         # exhaustive prefix [0,2^P): P=32 in the optimised builds, 28 in the slow (unoptimised / sanitised) ones
         tier_env={"quick": {"pinned": {"VERIF_PREFIX_BITS": "24"}, "debug": {"VERIF_PREFIX_BITS": "22"},
                             "asan": {"VERIF_PREFIX_BITS": "22"}, "native": {"VERIF_PREFIX_BITS": "22"}},
                   "thorough": {"debug": {"VERIF_PREFIX_BITS": "28"}, "asan": {"VERIF_PREFIX_BITS": "28"},
-                               "v2": {"VERIF_PREFIX_BITS": "28"}, "bmi": {"VERIF_PREFIX_BITS": "28"}}},
+                               "v2": {"VERIF_PREFIX_BITS": "28"}, "bmi": {"VERIF_PREFIX_BITS": "28"},
+                               "o3": {"VERIF_PREFIX_BITS": "28"}, "native": {"VERIF_PREFIX_BITS": "30"}}},
         rule=rule, explanation=expl,
         assumptions=["reference encoders in /verif/ref are trusted (written from the documented formats)",
                      "2^64 values are covered exhaustively only below 2^P and over the stated alphabets beyond"],
@@ -153,8 +154,8 @@ ARRAY_RULE = ("every array of the corpus A (S1: all arrays of length 1-3 over a 
 def arrays(prop, expl, rule_extra="", dl_quick=150, dl_thorough=1800, configs=None):
     CHECKS[prop] = dict(
         name="arrays", harness=["checks/arrays.c", "engine/vmalloc.c"], libs=LIBS_ALL, wrap_malloc=True,
-        configs=configs or {"quick": ["pinned", "native"], "thorough": ["pinned", "native", "asan", "debug", "v2", "bmi"]},
-        shards={"pinned": 16, "native": 16, "asan": 16, "debug": 16, "v2": 16, "bmi": 16},
+        configs=configs or {"quick": ["pinned", "native"], "thorough": ["pinned", "native", "asan", "debug", "v2", "bmi", "o3"]},
+        shards={"pinned": 16, "native": 16, "asan": 16, "debug": 16, "v2": 16, "bmi": 16, "o3": 16},
         deadline={"quick": dl_quick, "thorough": dl_thorough},
         rule=ARRAY_RULE + rule_extra, explanation=expl,
         assumptions=["oracle is the input array itself / ground truth recomputed by the harness",
